@@ -57,7 +57,7 @@ func (g *genCtx) param() string {
 		strconv.Itoa(h - 1), strconv.Itoa(h), strconv.Itoa(h + 1), "255", "256", "65535",
 		"2147483647", "2147483648", "4294967296", "9223372036854775807", "9223372036854775808",
 		"18446744073709551616", "100000000000000000000", "2147483649", "2147483650", "4294967297", "4294967298", "9223372036854775809",
-		"18446744073709551617", "18446744073709551618"}
+		"18446744073709551617", "18446744073709551618", "65536", "65537", "65538", "131073", "196610", "32768", "256", "257"}
 	switch g.r.intn(10) {
 	case 0, 1, 2, 3, 4:
 		return pool[g.r.intn(11)]
@@ -218,6 +218,10 @@ func (g *genCtx) item(class string) Item {
 	case "wrap":
 		return in(class, csi(pick(r, []string{"?7h", "?7l", "?7h"})))
 	case "mode":
+		if r.chance(1, 8) {
+			// XTMODKEYS: resource 4 (modifyOtherKeys) and other resources, which must change nothing
+			return in(class, csi(">"+pick(r, []string{"4;2", "4;1", "4;0", "4", "1;2", "2", "2;1", "0;1", "1;4", "4;2;1", "", "5;2", "4;3"})+"m"))
+		}
 		modes := []string{"1", "7", "9", "12", "25", "1000", "1002", "1003", "1004", "1005", "1006", "1015", "1049", "2004", "1034", "3", "47", "0", "",
 			"1007", "1048", "2026", "69", "1001"}
 		n := 1
@@ -607,6 +611,27 @@ func (g *genCtx) macro(name string) []Item {
 			goTo(r.intn(g.h), r.intn(g.w))
 			add("erase", pick(r, []string{fmt.Sprintf("\x1b[%dP", 1+r.intn(4)), fmt.Sprintf("\x1b[%dP", 1+r.intn(4)), "\x1b[K", fmt.Sprintf("\x1b[%dX", 1+r.intn(g.w)), "\x1b[2K"}))
 		}
+	case "xtmodkeys":
+		// modifyOtherKeys switched on, then XTMODKEYS for other resources (which must change nothing)
+		add("mode", pick(r, []string{"\x1b[>4;2m", "\x1b[>4;1m", "\x1b[>4;2m"}))
+		for k, n := 0, 1+r.intn(3); k < n; k++ {
+			add("mode", "\x1b[>"+pick(r, []string{"1;2", "2", "2;1", "0;1", "1", "5;2", "3;1", "1;0", ""})+"m")
+			if r.chance(1, 2) {
+				add("text", string(g.text(1+r.intn(3), false, false)))
+			}
+		}
+	case "deep-kbd-stack":
+		// more pushes than the stack holds, a few pops, then a query (and whatever comes next)
+		for k, n := 0, 30+r.intn(12); k < n; k++ {
+			add("kbd", fmt.Sprintf("\x1b[>%du", 1+(k*7+r.intn(3))%31))
+		}
+		for k, n := 0, 1+r.intn(5); k < n; k++ {
+			add("kbd", pick(r, []string{"\x1b[<u", "\x1b[<u", "\x1b[<2u", "\x1b[<1u"}))
+			if r.chance(1, 2) {
+				add("query", "\x1b[?u")
+			}
+		}
+		add("query", "\x1b[?u")
 	case "erase-after-scroll":
 		// rows vacated by one scroll of several rows, then a whole-row (or row-end) edit of ONE
 		// of them under another rendition: its siblings must stay as they are
@@ -673,7 +698,7 @@ func (g *genCtx) macro(name string) []Item {
 }
 
 var macroNames = []string{"save-resize-restore", "outside-region", "alt-roundtrip", "wide-edges", "autowrap-corners", "wide-splice",
-	"resize-wide-rows", "mark-after-motion", "alt-text-edge", "erase-with-region", "erase-after-scroll", "save-alt-restore", "resize-twice-then-edit", "indicator-after-control"}
+	"resize-wide-rows", "mark-after-motion", "alt-text-edge", "erase-with-region", "erase-after-scroll", "save-alt-restore", "resize-twice-then-edit", "indicator-after-control", "deep-kbd-stack", "xtmodkeys"}
 
 func (g *genCtx) sizePick() (int, int) {
 	r := g.r
@@ -749,23 +774,23 @@ var profiles = map[string]*profile{
 	"general": {name: "general", shortWrites: 10, gmode: 15, macros: 6, weights: withWeights(map[string]int{"resize": 2}), minLen: 4, maxLen: 40, grid: 25, chunks: []int{0, 0, 1, 3}},
 	"C01": {name: "C01", shortWrites: 10, gmode: 20, gridGrapheme: true, macros: 8, weights: withWeights(map[string]int{"resize": 8, "badutf8": 6, "cursor": 16, "scroll": 12, "margins": 8, "erase": 12, "manyparams": 3, "oddcsi": 4, "textzero": 4}),
 		minLen: 4, maxLen: 60, grid: 30, chunks: []int{0, 1, 2, 3}, sizes: func(g *genCtx) (int, int) { return g.sizePick() }},
-	"C02": {name: "C02", gmode: 15, macros: 8, weights: withWeights(map[string]int{"resize": 5, "textwide": 20, "goto": 20, "erase": 14, "sgr": 10, "badutf8": 3}),
+	"C02": {name: "C02", gmode: 15, macros: 8, weights: withWeights(map[string]int{"resize": 5, "textwide": 20, "goto": 20, "erase": 14, "sgr": 10, "badutf8": 3, "textzero": 4}),
 		minLen: 6, maxLen: 50, grid: 25, chunks: []int{0, 1, 3}},
 	"C03": {name: "C03", gmode: 20, macros: 8, macroSet: []string{"wide-edges", "autowrap-corners", "outside-region", "wide-splice", "mark-after-motion", "alt-text-edge", "indicator-after-control"}, weights: map[string]int{"text": 30, "textwide": 20, "textlong": 15, "goto": 14, "wrap": 8, "cursor": 6, "sgr": 5, "crlf": 4, "margins": 2, "badutf8": 3, "c0": 3, "altscreen": 1},
 		minLen: 4, maxLen: 40, grid: 30, chunks: []int{0, 1, 3}},
 	"C04": {name: "C04", gmode: 8, macros: 8, macroSet: []string{"outside-region", "autowrap-corners", "save-resize-restore", "save-alt-restore"}, weights: map[string]int{"cursor": 40, "c0": 15, "index": 12, "goto": 6, "margins": 8, "text": 10, "textwide": 3, "wrap": 3, "lf": 5, "crlf": 3, "manyparams": 2, "altscreen": 2},
 		minLen: 4, maxLen: 40, grid: 30, chunks: []int{0, 1}},
-	"C05": {name: "C05", gmode: 12, macros: 10, macroSet: []string{"wide-edges", "wide-splice", "erase-with-region", "erase-after-scroll", "resize-twice-then-edit"}, weights: map[string]int{"erase": 35, "goto": 20, "text": 15, "textwide": 15, "textlong": 6, "sgr": 8, "wrap": 2, "crlf": 3, "margins": 3, "scroll": 3, "resize": 2},
+	"C05": {name: "C05", gmode: 12, macros: 10, macroSet: []string{"wide-edges", "wide-splice", "erase-with-region", "erase-after-scroll", "resize-twice-then-edit"}, weights: map[string]int{"erase": 35, "goto": 20, "text": 15, "textwide": 15, "textlong": 6, "sgr": 8, "wrap": 2, "crlf": 3, "margins": 3, "scroll": 3, "resize": 2, "textzero": 4},
 		minLen: 5, maxLen: 40, grid: 30, chunks: []int{0, 1}},
 	"C06": {name: "C06", gmode: 10, macros: 10, macroSet: []string{"outside-region", "autowrap-corners"}, weights: map[string]int{"scroll": 25, "margins": 14, "index": 14, "lf": 8, "goto": 12, "text": 12, "textwide": 5, "textlong": 6, "wrap": 4, "sgr": 4, "crlf": 4, "resize": 3},
 		minLen: 5, maxLen: 40, grid: 30, chunks: []int{0, 1}},
 	"C07": {name: "C07", macros: 6, macroSet: []string{"wide-edges", "wide-splice"}, weights: map[string]int{"sgr": 40, "text": 20, "textwide": 6, "erase": 12, "goto": 10, "scroll": 3, "manyparams": 3, "crlf": 3, "resize": 2, "altscreen": 2},
 		minLen: 5, maxLen: 40, grid: 30, chunks: []int{0, 1}},
-	"C09": {name: "C09", weights: map[string]int{"oddcsi": 25, "esc": 15, "osc": 15, "dcs": 10, "text": 20, "textwide": 4, "manyparams": 4, "sgr": 3, "cursor": 4, "query": 3, "mode": 3, "kbd": 3},
+	"C09": {name: "C09", macros: 5, macroSet: []string{"xtmodkeys"}, weights: map[string]int{"oddcsi": 25, "esc": 15, "osc": 15, "dcs": 10, "text": 20, "textwide": 4, "manyparams": 4, "sgr": 3, "cursor": 4, "query": 3, "mode": 3, "kbd": 3},
 		minLen: 3, maxLen: 30, grid: 10, chunks: []int{0, 1, 2, 3}},
-	"C10": {name: "C10", gmode: 12, macros: 8, weights: withWeights(map[string]int{"altscreen": 6, "scroll": 10, "index": 8, "textwide": 15, "lf": 8}),
+	"C10": {name: "C10", gmode: 12, macros: 8, weights: withWeights(map[string]int{"altscreen": 6, "scroll": 10, "index": 8, "textwide": 15, "lf": 8, "resize": 4, "textzero": 3}),
 		minLen: 5, maxLen: 50, grid: 30, chunks: []int{0, 1}},
-	"C14": {name: "C14", shortWrites: 35, macros: 8, macroSet: []string{"alt-roundtrip", "save-resize-restore"}, weights: withWeights(map[string]int{"query": 25, "kbd": 8, "altscreen": 4, "goto": 14, "resize": 3}),
+	"C14": {name: "C14", shortWrites: 35, macros: 8, macroSet: []string{"alt-roundtrip", "save-resize-restore", "deep-kbd-stack"}, weights: withWeights(map[string]int{"query": 25, "kbd": 8, "altscreen": 4, "goto": 14, "resize": 3}),
 		minLen: 4, maxLen: 40, grid: 20, chunks: []int{0, 1, 3}},
 	"C17": {name: "C17", macros: 12, macroSet: []string{"alt-roundtrip"}, weights: map[string]int{"mode": 30, "altscreen": 15, "text": 15, "textwide": 4, "goto": 8, "kbd": 8, "margins": 5, "wrap": 6, "sgr": 4, "erase": 4, "scroll": 3, "lf": 4, "resize": 4},
 		minLen: 5, maxLen: 40, grid: 20, chunks: []int{0, 1}},
